@@ -410,6 +410,12 @@ def run(ck):
     ck.floor("C05-PAD", 5)
     check_trunc(ck, prog)
     check_flags_and_width(ck, prog)
+    # "provided the file carries an integrity check": the SHA-256 the decoder compares with covers every byte (C14 rules)
+    from . import C14 as _C14
+    _C14.check_sha(ck, prog)
+    # ... and the tools turn every decoder error into a non-zero exit status, whatever the verbosity (C17 rule)
+    from . import C17 as _C17
+    _C17.check_msg_status(ck, common.program(ck, ("xz",), files=("/message.c",)), rule="C05-XZSTATUS")
     # block.h: "lzma_block_header_decode() always sets ignore_check to false": a caller's lzma_block that still holds
     # `true` (or garbage) from an earlier use would otherwise make lzma_block_decoder() skip the integrity check
     from . import reinit
